@@ -13,7 +13,8 @@ import (
 	"verif/engine"
 )
 
-// E3 over the protected containers: every single-byte alteration must be refused or must yield the same key.
+// E3 over the protected containers: every single-byte alteration of a protected region must be refused; in the
+// unprotected regions (unprotectedRegion) it must be refused or yield the same key.
 
 type span struct{ start, end int } // full TLV [start,end)
 
@@ -82,6 +83,8 @@ func masks(t *engine.T, container string) []byte {
 	return m
 }
 
+var unprotectedRegion = map[string]bool{"cfca/certificate": true, "cfca/encryptedKey": true, "cfca/version": true, "gcm/encryptionAlgorithm": true, "sm2-enveloped/symAlgID": true}
+
 // mutate runs the E3 oracle. parse returns (key, error); a returned key must be the same key as k.
 func mutate(t *engine.T, k *key, container string, seed []byte, names []string, guard func([]byte) bool, parse func([]byte) (any, error)) {
 	sp := topChildren(seed)
@@ -114,7 +117,18 @@ func mutate(t *engine.T, k *key, container string, seed []byte, names []string, 
 					"key %s: byte %d (%s) xor %02x is accepted and yields a different key: %s; seed=%s", k.name, i, region, m, why, engine.Hex(seed))
 				continue
 			}
+			// The statement demands that these containers reject every alteration of their protected bytes. Regions that
+			// are not protected by the public key / tag - the algorithm identifier of the enveloped key (alternative OID
+			// spellings are accepted), the certificate, version and the framing of the encrypted key in the CFCA blob, the
+			// PBES2 parameter block in front of a GCM ciphertext - may be altered without changing the key; everywhere else
+			// an accepted alteration is a violation even when the key that comes out is the right one.
+			if !unprotectedRegion[container+"/"+region] {
+				t.Fail("protected/"+container+"/"+region+"/alteration-accepted",
+					"key %s: byte %d (%s) xor %02x is accepted (and yields the same key) although the region is protected; seed=%s", k.name, i, region, m, engine.Hex(seed))
+				continue
+			}
 			t.Outcome("protected/" + container + "/" + region + "/accepted-same-key")
+			t.Extra("accepted_same_key:"+container+"/"+region, 1)
 			t.Nontrivial("prot/" + container + "/" + region + "/same-key")
 		}
 	}
